@@ -53,6 +53,45 @@ func (c *Ctx) openFileSites() []openSite {
 	return out
 }
 
+// openedOnlyForReading: every use of the *os.File an os.Open call returns is a read-side method call on it (or a nil
+// test); it is not stored, returned, captured or passed on.
+func openedOnlyForReading(ci ssa.CallInstruction) bool {
+	v := ci.Value()
+	if v == nil {
+		return false
+	}
+	readSide := map[string]bool{"ReadDir": true, "Readdir": true, "Readdirnames": true, "Read": true, "ReadAt": true, "Close": true, "Stat": true, "Name": true, "Seek": true}
+	var okUse func(x ssa.Value, depth int) bool
+	okUse = func(x ssa.Value, depth int) bool {
+		refs := x.Referrers()
+		if refs == nil || depth > 3 {
+			return false
+		}
+		for _, u := range *refs {
+			switch u := u.(type) {
+			case *ssa.DebugRef:
+			case *ssa.Extract:
+				if u.Index == 0 && !okUse(u, depth+1) {
+					return false
+				}
+			case *ssa.BinOp:
+			case ssa.CallInstruction:
+				sc := u.Common().StaticCallee()
+				if sc == nil || sc.Signature.Recv() == nil || len(u.Common().Args) == 0 || u.Common().Args[0] != x || !readSide[sc.Name()] {
+					return false
+				}
+				if p, ok := sc.Signature.Recv().Type().(*types.Pointer); !ok || !isNamed(p.Elem(), "os", "File") {
+					return false
+				}
+			default:
+				return false
+			}
+		}
+		return true
+	}
+	return okUse(v, 0)
+}
+
 // checkOpenFlags is shared by C03.append-flag and C13.flags.
 func checkOpenFlags(c *Ctx, r *Report, rule string) {
 	sites := c.openFileSites()
@@ -66,6 +105,10 @@ func checkOpenFlags(c *Ctx, r *Report, rule string) {
 		key := fmt.Sprintf("%s:%s→%s", rule, fname(s.Fn), s.Call.Common().StaticCallee().Name())
 		r.SawFunc(s.Fn)
 		r.Count("call_sites", 1)
+		if s.Call.Common().StaticCallee().Name() == "Open" && openedOnlyForReading(s.Call) {
+			r.OK(key, "opened read-only and used only to read (a directory listing or a file's contents), never stored, returned or handed on: not a log target")
+			continue
+		}
 		if s.Call.Common().StaticCallee().Name() != "OpenFile" {
 			r.Fail(key, c.instrPos(s.Call), "log target opened with os.%s (truncating or read-only) instead of OpenFile(O_CREATE|O_WRONLY|O_APPEND)", s.Call.Common().StaticCallee().Name())
 			continue
@@ -769,6 +812,9 @@ func checkC14(c *Ctx, r *Report) {
 	r.Assumptions = []string{"time.Parse(layout, s) succeeds only for strings in the layout's format", "os.DirEntry contract"}
 	ro := c.roles(r)
 	fileAppenderDecisions(r, c.checkFileAppenderSemantics(r, ro, "C14.file-values"))
+	if c.checkRetentionSemantics(r, ro, "C14.retention-values") {
+		r.Decide([]string{"C14.age:", "C14.guards:", "C14.path:"}, nil, "the cleanup launched by a rotation evaluated over directory populations: the removed set equals the statement's")
+	}
 	sites := c.destructiveSites()
 	if ro.Retention == nil {
 		r.Undecided("C14.anchor:retention", "", "no function calling os.Remove found")
